@@ -802,8 +802,11 @@ func (ot *objectTree) Delete() error {
 	if ot.isDeleted {
 		return nil
 	}
+	if err := ot.storage.Delete(context.Background()); err != nil {
+		return err
+	}
 	ot.isDeleted = true
-	return ot.storage.Delete(context.Background())
+	return nil
 }
 
 func (ot *objectTree) SnapshotPath() ([]string, error) {
